@@ -13,6 +13,7 @@ Two streams.
       overlapping); modules are created, added and unwound through.
 Judge for both: no panic whose location is under /repo/src, no hang, at creation, add and unwind."""
 import re
+import struct
 import vlib, petruth
 from fhgen import *
 from props import C01, C03
@@ -373,6 +374,91 @@ def macho_structural(rng, tier):
         out.append(("struct-macho-%s-%d" % (kind, rep), s))
     return out
 
+def macho_opcodes(rng, tier):
+    """structurally valid __unwind_info whose OPCODES are arbitrary (model-compared): every kind incl. the unassigned
+    ones, frameless sizes and register counts / permutations out of range, frameless-indirect entries whose
+    immediate in the text lies on a 16/31/32-bit boundary or outside the function, DWARF offsets into nothing;
+    probed at the start, inside and at the end of every function, both frame kinds"""
+    import machotruth as mt
+    out = []
+    IMM = [0, 8, 16, 0x7ff8, 0x8000, 0x7fff0, 0x7fff8, 0x80000, 0x80008, 0x7ffffff0, 0x7ffffff8, 0x80000000, 0x80000008,
+           0x80000010, 0x80000018, 0x80000020, 0x80000028, 0xfffffff0, 0xfffffff8, 0xffffffff]
+    for rep in range(4 if tier == "quick" else 40):
+        arch = "x86" if rep % 2 == 0 else "a64"
+        s = Script(arch, "may" if rep % 4 < 2 else "must")
+        funcs = []
+        pos = 0x1000
+        nsys = len(IMM) if arch == "x86" else 0
+        for i in range(nsys + 24):
+            f = mt.Func(arch, "h%d" % i, "hostile")
+            ln = rng.choice([0x10, 0x40, 0x120])
+            body = bytearray(rng.below(256) for _ in range(ln)) if rng.chance(1, 2) else bytearray([0x90 if arch == "x86" else 0x1f] * ln)
+            if arch == "x86":
+                kind = rng.choice([0, 1, 2, 2, 3, 3, 3, 3, 4, 5, 9, 15]) if i >= nsys else 3
+                cnt = rng.choice([0, 1, 2, 3, 5, 6, 6, 7])
+                perm = rng.choice([0, rng.below(1024), rng.below(720), 1023])
+                if kind == 3:
+                    off = rng.choice([0, 3, ln - 4, ln - 3, ln, 0xff, rng.below(256)]) if i >= nsys else rng.choice([0, 4, ln - 4])
+                    adj = rng.below(8) if i >= nsys else rng.choice([0, 0, 1, 7])
+                    if i < nsys:
+                        imm = (IMM[i] - 8 * adj) & 0xffffffff          # every boundary value as the resulting stack size
+                    else:
+                        imm = (rng.choice(IMM) - 8 * adj * rng.below(2) + rng.choice([0, 0, 0, 4, -8, 8])) & 0xffffffff
+                    if off + 4 <= ln:
+                        body[off:off + 4] = struct.pack("<I", imm)
+                    if rng.chance(1, 2) or i < nsys:
+                        # make sure rbp is among the saved registers: permutation that starts with rbp (register 6)
+                        cnt = rng.choice([1, 2, 3, 6])
+                        rl = [1, 2, 3, 4, 5][:cnt - 1]
+                        rl.insert(rng.below(cnt), 6)                       # rbp at any position of the list
+                        perm = mt.perm_encode(rl)
+                    op = (3 << 24) | ((off & 0xff) << 16) | (adj << 13) | (cnt << 10) | (perm & 0x3ff)
+                elif kind == 2:
+                    op = (2 << 24) | (rng.choice([0, 1, 2, 3, 255, rng.below(256)]) << 16) | (cnt << 10) | (perm & 0x3ff)
+                elif kind == 1:
+                    op = (1 << 24) | (rng.below(256) << 16) | rng.below(1 << 15)
+                elif kind == 4:
+                    op = (4 << 24) | rng.choice([0, 1, 0x10, 0xffffff, rng.below(1 << 24)])
+                else:
+                    op = (kind << 24) | rng.below(1 << 24)
+            else:
+                kind = rng.choice([0, 1, 2, 2, 3, 4, 4, 5, 15])
+                if kind == 2:
+                    op = (2 << 24) | (rng.choice([0, 1, 0xfff, rng.below(4096)]) << 12)
+                elif kind == 3:
+                    op = (3 << 24) | rng.choice([0, 1, 0x10, 0xffffff, rng.below(1 << 24)])
+                elif kind == 4:
+                    op = (4 << 24) | rng.below(1 << 12)
+                else:
+                    op = (kind << 24) | rng.below(1 << 24)
+            if rng.chance(1, 4):
+                op |= rng.choice([0x80000000, 0x40000000, 0x30000000])      # start / LSDA / personality bits
+            f.emit(mt.I("fill"), "body", bytes(body))
+            f.opcode = op
+            f.start = pos
+            pos += ln + rng.choice([0, 0, 4, 0x10])
+            funcs.append(f)
+        text_lo = 0x1000
+        text = bytearray([0xCC] * (pos - text_lo))
+        for f in funcs:
+            text[f.start - text_lo: f.start - text_lo + f.length] = f.text()
+        prog = dict(arch=arch, funcs=funcs, text_lo=text_lo, text=bytes(text), stubs=(pos, pos + 12), helper=(pos + 12, pos + 48), end=pos + 48)
+        base = 0x100000000 + 0x10000 * rng.below(256)
+        mt.module_macho(s, "M", prog, base, 0x100000000, rng, merge=rng.chance(1, 2))
+        s.add("new U"); s.add("add U M"); s.add("newcache C")
+        lo = 0x7000
+        s.mem("S", [(lo + 8 * i, rng.choice([0, lo + 8 * rng.below(128), base + 0x1000 + rng.below(0x300), rng.u64()])) for i in range(128)])
+        gran = 1 if arch == "x86" else 4
+        for f in funcs:
+            for a in {f.start, f.start + gran, f.start + f.length - gran, f.start + gran * rng.below(max(1, f.length // gran))}:
+                for mode in ("ip", "ra"):
+                    addr = base + a + (1 if mode == "ra" else 0)
+                    regs = (s.regs_x86(addr, lo + 8 * rng.below(100), rng.choice([0, lo + 8 * rng.below(100), rng.u64()])) if arch == "x86"
+                            else s.regs_a64(M64, rng.choice([0, base + 0x1010, rng.u64()]), lo + 16 * rng.below(50), rng.choice([0, lo + 16 * rng.below(50)])))
+                    s.add("unwind U C %s %s %s S" % (mode, hx(addr), regs), tag="struct:macho-opcode:%s:%s:%d" % (arch, mode, (f.opcode >> 24) & 0xf))
+        out.append(("opcodes-macho-%s-%d" % (arch, rep), s))
+    return out
+
 def analysis_stream(rng, tier):
     """the instruction analysers (entered from Mach-O unwinding for first frames) on hostile text bytes: random
     bytes, shuffled and truncated prologue/epilogue instructions, lone prefixes at the end of the function, long
@@ -435,7 +521,7 @@ def generate(rng, tier):
     for w in range(4 if tier == "quick" else 40):
         nm, s = suites.dwarf_world(rng, "x86" if w % 2 == 0 else "a64", nmods=3, nf=3, nprobes=30, policy="may" if w % 4 < 2 else "must")
         out.append(("world-%s-%d" % (nm, w), s))
-    return out + macho_structural(rng, tier) + bytes_stream(rng, tier) + macho_ranges(rng, tier) + analysis_stream(rng, tier)
+    return out + macho_structural(rng, tier) + macho_opcodes(rng, tier) + bytes_stream(rng, tier) + macho_ranges(rng, tier) + analysis_stream(rng, tier)
 
 OWN = re.compile(r"panic own\b")
 def judge(script, impl):
